@@ -6,6 +6,7 @@ CONSTANTS
   Rets <- RetsC02
   Advs <- AdvsAll
   Decs <- DecsSleep
+  BFaults <- BFaultsNone
   Ras <- RasNone
   Modes = {"call", "exec"}
   NRuns = 1
